@@ -234,6 +234,21 @@ func (c *Check) replayFindings() {
 	for pkg := range pkgs {
 		var cases []replayCase
 		fs := byPkg[pkg]
+		if strings.HasSuffix(pkg, "/cmd/zlint") {
+			// candidates about the command-line tool are confirmed by the native differential run of the real doLint
+			fails, raw, err := runCLINative()
+			for _, f := range fs {
+				switch {
+				case err != nil:
+					f.Confirmed, f.ReplayOut = "unknown", "native CLI run failed: "+fmt.Sprint(err)+" "+lastLines(raw, 10)
+				case len(fails) > 0:
+					f.Confirmed, f.ReplayOut = "yes", strings.Join(fails, "\n")
+				default:
+					f.Confirmed, f.ReplayOut = "no", "the native differential run of doLint (all encodings, corrupted inputs, filtered registry) shows no deviation"
+				}
+			}
+			continue
+		}
 		for _, f := range fs {
 			cases = append(cases, replayCase{Func: f.Func, Pkg: f.Pkg, Nondet: f.Nondet, Model: f.Model})
 		}
@@ -305,4 +320,56 @@ func equalStrs(a, b []string) bool {
 		}
 	}
 	return true
+}
+
+// runCLINative runs TestZZCLI (harness/cmd/zlint/c15native_test.go) against the working tree.
+func runCLINative() ([]string, string, error) {
+	tmp, err := os.MkdirTemp("", "symgo-cli-")
+	if err != nil {
+		return nil, "", err
+	}
+	defer os.RemoveAll(tmp)
+	ov, _, err := buildOverlayPaths()
+	if err != nil {
+		return nil, "", err
+	}
+	ovb, _ := json.Marshal(map[string]interface{}{"Replace": ov})
+	ovPath := filepath.Join(tmp, "overlay.json")
+	os.WriteFile(ovPath, ovb, 0o644)
+	// package main parses the command line in init(), which rejects go test's own flags: build the test binary and run it bare
+	bin := filepath.Join(tmp, "cli.test")
+	build := exec.Command("go", "test", "-c", "-vet=off", "-overlay", ovPath, "-o", bin, "./cmd/zlint")
+	build.Dir = repoV3
+	build.Env = append(os.Environ(), "GOFLAGS=-mod=mod", "GOPROXY=off", "GOSUMDB=off", "GOTOOLCHAIN=local")
+	if bo, err := build.CombinedOutput(); err != nil {
+		return nil, string(bo), fmt.Errorf("cannot build the native CLI test: %v", err)
+	}
+	cmd := exec.Command(bin)
+	cmd.Dir = filepath.Join(repoV3, "cmd", "zlint")
+	var out bytes.Buffer
+	cmd.Stdout = &out
+	cmd.Stderr = &out
+	done0 := make(chan error, 1)
+	cmd.Start()
+	go func() { done0 <- cmd.Wait() }()
+	select {
+	case <-done0:
+	case <-time.After(5 * time.Minute):
+		cmd.Process.Kill()
+	}
+	raw := out.String()
+	var fails []string
+	done := false
+	for _, l := range strings.Split(raw, "\n") {
+		if strings.HasPrefix(l, "ZZ-CLI FAIL ") {
+			fails = append(fails, strings.TrimPrefix(l, "ZZ-CLI FAIL "))
+		}
+		if strings.HasPrefix(l, "ZZ-CLI DONE") {
+			done = true
+		}
+	}
+	if !done && len(fails) == 0 {
+		return nil, raw, fmt.Errorf("the native CLI test did not complete")
+	}
+	return fails, raw, nil
 }
